@@ -990,12 +990,20 @@ static int write_char(void *context, cif_value_tp *char_value, int allow_text) {
                         result = CIF_DISALLOWED_VALUE;
                     } else {
                         /* write as a text block, possibly with line-folding and/or prefixing  */
-                        result = write_text(context, text, analysis.length,
-                                ((analysis.length_first >= LINE_LENGTH(context))
-                                        || (analysis.length_max > LINE_LENGTH(context))
-                                        || analysis.has_reserved_start
-                                        || (analysis.max_semi_run >= (LINE_LENGTH(context) - 1))),
-                                analysis.contains_text_delim);
+                        int fold = ((analysis.length_first >= LINE_LENGTH(context))
+                                || (analysis.length_max > LINE_LENGTH(context))
+                                || analysis.has_reserved_start
+                                || (analysis.max_semi_run >= (LINE_LENGTH(context) - 1)));
+
+                        /*
+                         * Prefixing is needed not only to protect embedded text delimiters, but also where folding
+                         * would otherwise put a semicolon at the beginning of a line: when the text itself starts with
+                         * one, and when a run of semicolons is too long for any fold point outside it to be found.
+                         */
+                        result = write_text(context, text, analysis.length, fold,
+                                (analysis.contains_text_delim
+                                        || (fold && ((*text == UCHAR_SEMI)
+                                                || (analysis.max_semi_run >= (LINE_LENGTH(context) - 1))))));
                     }
                     break;
                 default: /* unexpected value */
